@@ -34,7 +34,9 @@ func init() {
 	})
 }
 
-var anyURLs = []string{"/B", "/google.protobuf.Timestamp", "/verif.impa.Point", "/verif.kinds.Scalars"}
+// type URLs in every accepted spelling: the type name is what follows the LAST slash
+var anyURLs = []string{"/B", "/google.protobuf.Timestamp", "/verif.impa.Point", "/verif.kinds.Scalars",
+	"type.googleapis.com/google.protobuf.Duration", "types.example.com/v1/B", "https://host.example/path/to/verif.impa.Point"}
 // fmDrawRange reads, from the generator's source, how many paths one draw of
 // genFieldMask yields (rapid.SliceOfN(..., lo, hi).Draw(t, "paths")). If the
 // source does not have that shape any more the range is not asserted.
@@ -237,7 +239,15 @@ func runC18(ctx *Ctx) {
 					defer func() {
 						if r := recover(); r != nil {
 							// rapid steers itself with panics of its own types: pass them on
-							if tn := fmt.Sprintf("%T", r); strings.HasPrefix(tn, "rapid.") || strings.HasPrefix(tn, "*rapid.") {
+							tn := fmt.Sprintf("%T", r)
+							if tn == "rapid.stopTest" {
+								// the generator under test failed the rapid test itself (its
+								// assertions call FailNow on the *rapid.T): that is its verdict
+								// on its own inputs, not a steering signal
+								err = fmt.Errorf("the generator aborted instead of yielding a message: %v", r)
+								return
+							}
+							if strings.HasPrefix(tn, "rapid.") || strings.HasPrefix(tn, "*rapid.") {
 								panic(r)
 							}
 							err = fmt.Errorf("panic: %v", r)
